@@ -5,6 +5,7 @@ package main
 
 import (
 	"go/token"
+	"go/types"
 
 	"golang.org/x/tools/go/ssa"
 )
@@ -85,8 +86,8 @@ func runC17D1(c *Ctx, k *c17kit) {
 			return
 		}
 		key := fnKey(f)
-		for _, l := range k.origins(st.Val, c17isGzipWriter) {
-			if !c17isGzipWriter(l.v) {
+		for _, l := range k.origins(st.Val, k.isGzipValue) {
+			if !k.isGzipValue(l.v) {
 				continue
 			}
 			nInst++
@@ -101,11 +102,9 @@ func runC17D1(c *Ctx, k *c17kit) {
 		}
 	})
 	if nInst == 0 {
-		c.undecided("C17.D1", "anchor|gzip writer installation", "no store of a *gzip.Writer into the decided-writer field of the response writer")
+		c.undecided("C17.D1", "anchor|gzip writer installation", "no store of a *gzip.Writer (or of a wrapper type holding one) into the decided-writer field of the response writer")
 	}
 }
-
-func c17isGzipWriter(v ssa.Value) bool { return typeStr(v.Type()) == "*compress/gzip.Writer" }
 
 // ---- H1: headers and status ---------------------------------------------------------------------------------------
 
@@ -201,6 +200,103 @@ func c17edgeFact(p *ssa.BasicBlock, succIdx int) (Fact, bool) {
 	return Fact{cond, truth}, true
 }
 
+// ---- decision flags -----------------------------------------------------------------------------------------------
+//
+// "Undecided" is the nil-ness of the decided-writer field; a restructuring may keep it in an explicit boolean next to
+// it (`decided bool`, tested as `if !grw.decided`). Such a field counts as a decision flag when the package only ever
+// stores `true` into it and every such store is tied to a decision: on every path through the function that sets the
+// flag the writer field is assigned as well (before or after). Then flag == true implies writer != nil once the
+// method has returned, and the rules accept a flag fact wherever they accept a nil fact.
+
+func (k *c17kit) decisionFlags() map[c17fkey]bool {
+	if k.flags != nil {
+		return k.flags
+	}
+	k.flags = map[c17fkey]bool{} // (empty while it is computed: the checks below do not consult flags)
+	out := map[c17fkey]bool{}
+	for fk, sts := range k.stores {
+		if b, ok := fk.typ().Underlying().(*types.Basic); !ok || b.Kind() != types.Bool {
+			continue
+		}
+		valid := len(sts) > 0
+		for _, st := range sts {
+			if bv, isK := constBool(st.Val); !isK || !bv {
+				valid = false
+				break
+			}
+			if !k.tiedTo(st, k.decides) {
+				valid = false
+				break
+			}
+		}
+		if valid {
+			out[fk] = true
+		}
+	}
+	k.flags = out
+	return out
+}
+
+// decides: i assigns the decided writer, or calls a function of the region that does so on all of its paths.
+func (k *c17kit) decides(i ssa.Instruction) bool {
+	if k.isDecidingStore(i) {
+		return true
+	}
+	if call, ok := i.(*ssa.Call); ok {
+		if sc := call.Call.StaticCallee(); sc != nil && len(sc.Blocks) > 0 && k.inRegion(sc) && sc != i.Parent() {
+			return !k.undecidedReach(unwrap(sc), nil, 1)
+		}
+	}
+	return false
+}
+
+// tiedTo: on every path through i's function that executes i, an instruction matching pred executes too.
+func (k *c17kit) tiedTo(i ssa.Instruction, pred func(ssa.Instruction) bool) bool {
+	f := i.Parent()
+	if f == nil || len(f.Blocks) == 0 {
+		return false
+	}
+	if !pathAvoidingFromBlock(f.Blocks[0], i, pred) {
+		return true
+	}
+	_, open := exitReachableAvoiding(i, pred)
+	return !open
+}
+
+// flagFact: the fact is about a decision flag; returns whether it says "decided".
+func (k *c17kit) flagFact(f Fact) (decided bool, ok bool) {
+	fk := k.fkey(f.Cond)
+	if fk.n == nil || !k.decisionFlags()[fk] {
+		return false, false
+	}
+	return f.Truth, true
+}
+
+func (k *c17kit) isFlagSet(i ssa.Instruction) bool {
+	st, ok := i.(*ssa.Store)
+	if !ok {
+		return false
+	}
+	fk := k.fkey(st.Addr)
+	return fk.n != nil && k.decisionFlags()[fk]
+}
+
+// knownUndecided: at b the writer is known to be undecided: writer == nil, or a decision flag is false.
+func (k *c17kit) knownUndecided(b *ssa.BasicBlock) (byFlag bool, ok bool) {
+	if c17knownNil(b, k.isW) {
+		return false, true
+	}
+	if c17holds(b, func(f Fact) bool { d, isF := k.flagFact(f); return isF && !d }, 0) {
+		return true, true
+	}
+	return false, false
+}
+
+// knownDecided: at b the writer is known to be decided: writer != nil, or a decision flag is true.
+func (k *c17kit) knownDecided(b *ssa.BasicBlock) bool {
+	return c17knownNonNil(b, k.isW) || c17holds(b, func(f Fact) bool { d, isF := k.flagFact(f); return isF && d }, 0)
+}
+
 func (k *c17kit) isDecidingStore(i ssa.Instruction) bool {
 	st, ok := i.(*ssa.Store)
 	return ok && k.isW(st.Addr) && !isNilConst(st.Val)
@@ -228,7 +324,7 @@ func (k *c17kit) undecidedReach(f *ssa.Function, target ssa.Instruction, depth i
 				break
 			}
 			if call, ok := i.(*ssa.Call); ok && depth < 3 {
-				if sc := call.Call.StaticCallee(); sc != nil && len(sc.Blocks) > 0 && rootPkg(sc) == k.pkg && sc != f && !k.undecidedReach(unwrap(sc), nil, depth+1) {
+				if sc := call.Call.StaticCallee(); sc != nil && len(sc.Blocks) > 0 && k.inRegion(sc) && sc != f && !k.undecidedReach(unwrap(sc), nil, depth+1) {
 					blocked = true
 					break
 				}
@@ -245,6 +341,9 @@ func (k *c17kit) undecidedReach(f *ssa.Function, target ssa.Instruction, depth i
 				if nn, isNil := nilFact(ft, k.isW); isNil && nn {
 					continue // on this edge the writer is decided
 				}
+				if d, isF := k.flagFact(ft); isF && d {
+					continue // on this edge a decision flag is set
+				}
 			}
 			if !seen[s] {
 				seen[s] = true
@@ -257,7 +356,7 @@ func (k *c17kit) undecidedReach(f *ssa.Function, target ssa.Instruction, depth i
 
 // decidedAt: the writer is decided whenever instruction i executes.
 func (k *c17kit) decidedAt(i ssa.Instruction, depth int) bool {
-	if c17knownNonNil(i.Block(), k.isW) || !k.undecidedReach(i.Parent(), i, 0) {
+	if k.knownDecided(i.Block()) || !k.undecidedReach(i.Parent(), i, 0) {
 		return true
 	}
 	f := i.Parent()
@@ -270,6 +369,78 @@ func (k *c17kit) decidedAt(i ssa.Instruction, depth int) bool {
 		}
 	}
 	return true
+}
+
+// decidedValueOK: every value that v can be is the pooled gzip writer (or a package-local wrapper holding one), the
+// wrapped ResponseWriter, or a package-local wrapper whose writer fields only ever hold the wrapped ResponseWriter
+// (that the wrappers' Write methods forward unchanged is W1's part).
+func (k *c17kit) decidedValueOK(v ssa.Value) bool {
+	plain := func(x ssa.Value) bool {
+		n, gz, ws := k.holder(x.Type())
+		return n != nil && len(gz) == 0 && len(ws) > 0
+	}
+	ls := k.origins(v, func(x ssa.Value) bool { return k.isGzipValue(x) || k.isRW(x) || plain(x) })
+	for _, l := range ls {
+		switch {
+		case k.isGzipValue(l.v), k.isRW(l.v):
+		case plain(l.v):
+			n, _, ws := k.holder(l.v.Type())
+			for _, idx := range ws {
+				sts := k.stores[c17fkey{n, idx}]
+				if len(sts) == 0 {
+					return false
+				}
+				for _, st := range sts {
+					if !k.wrapsUnderlying(st.Val) {
+						return false
+					}
+				}
+			}
+		default:
+			return false
+		}
+	}
+	return len(ls) > 0
+}
+
+// freshlyRead: the value v of the decided writer that is used in block at was read from the field after the decision
+// (a copy taken while the field was still nil is stale): every load it stems from is at a decided point, or the copy
+// itself is known to be non-nil on the way to its use.
+func (k *c17kit) freshlyRead(v ssa.Value, at *ssa.BasicBlock, depth int) bool {
+	if depth > 6 {
+		return false
+	}
+	if at != nil && c17knownNonNil(at, sameVal(v)) {
+		return true
+	}
+	switch x := v.(type) {
+	case *ssa.UnOp:
+		if k.isW(x) {
+			return k.decidedAt(x, 0)
+		}
+	case *ssa.ChangeInterface:
+		return k.freshlyRead(x.X, at, depth+1)
+	case *ssa.Phi:
+		for i, e := range x.Edges {
+			p := x.Block().Preds[i]
+			okEdge := false
+			for idx, s := range p.Succs {
+				if s != x.Block() {
+					continue
+				}
+				if ft, has := c17edgeFact(p, idx); has {
+					if nn, isNil := nilFact(ft, sameVal(e)); isNil && nn {
+						okEdge = true
+					}
+				}
+			}
+			if !okEdge && !k.freshlyRead(e, p, depth+1) {
+				return false
+			}
+		}
+		return true
+	}
+	return true // not a plain copy of a load (a cell, a field extraction): decidedAt of the use decides
 }
 
 func runC17T1(c *Ctx, k *c17kit) {
@@ -285,9 +456,14 @@ func runC17T1(c *Ctx, k *c17kit) {
 			}
 		}
 		nStore++
-		c.check("C17.T1", fnKey(f)+"|writer decided only once", st.Pos(), c17knownNil(st.Block(), k.isW),
+		byFlag, undecided := k.knownUndecided(st.Block())
+		if undecided && byFlag {
+			// under `!decided`: only once if this path also sets the flag
+			undecided = k.tiedTo(st, k.isFlagSet)
+		}
+		c.check("C17.T1", fnKey(f)+"|writer decided only once", st.Pos(), undecided,
 			"the writer field may be assigned only under writer == nil: deciding again after bytes were written mixes compressed and plain output")
-		c.check("C17.T1", fnKey(f)+"|writer is the gzip writer or the wrapped writer", st.Pos(), k.storesGzip(st) || k.wrapsUnderlying(st.Val),
+		c.check("C17.T1", fnKey(f)+"|writer is the gzip writer or the wrapped writer", st.Pos(), k.decidedValueOK(st.Val),
 			"the decided writer must be either the pooled gzip writer or the wrapped ResponseWriter itself: anything else changes the bytes the client receives")
 	})
 	c.atLeast("C17.T1", "stores that decide the writer", nStore, 1)
@@ -295,11 +471,11 @@ func runC17T1(c *Ctx, k *c17kit) {
 	nUse := 0
 	eachInstrOf(k.fns, func(f *ssa.Function, i ssa.Instruction) {
 		cc := callCommon(i)
-		if cc == nil || !cc.IsInvoke() || !k.isW(cc.Value) {
+		if cc == nil || !cc.IsInvoke() || !k.isWval(cc.Value) {
 			return
 		}
 		nUse++
-		c.check("C17.T1", fnKey(f)+"|writer used only after it is decided", i.Pos(), k.decidedAt(i, 0),
+		c.check("C17.T1", fnKey(f)+"|writer used only after it is decided", i.Pos(), k.decidedAt(i, 0) && k.freshlyRead(cc.Value, i.Block(), 0),
 			"the writer field is dereferenced on a path where it may still be nil (nil pointer panic inside the response path)")
 	})
 	c.atLeast("C17.T1", "uses of the decided writer", nUse, 1)
@@ -307,21 +483,45 @@ func runC17T1(c *Ctx, k *c17kit) {
 
 // ---- T2: pooled writer typestate; V1 -----------------------------------------------------------------------------------
 
-// releases: calling f may put a writer back into the pool.
-func c17releases(f *ssa.Function) bool {
-	return f != nil && mayExec(unwrap(f), c17isPoolPut, 0)
+// releases: calling f may put a writer back into the pool - in f, in a function of the region it calls, or in an
+// implementation of an interface of the region it calls through.
+func (k *c17kit) releases(f *ssa.Function, depth int) bool {
+	if f == nil || depth > 4 {
+		return false
+	}
+	f = unwrap(f)
+	if len(f.Blocks) == 0 || !k.inRegion(f) {
+		return false
+	}
+	found := false
+	eachInstr(f, func(i ssa.Instruction) {
+		if found {
+			return
+		}
+		if c17isPoolPut(i) {
+			found = true
+			return
+		}
+		cc := callCommon(i)
+		if cc == nil {
+			return
+		}
+		for _, g := range k.callees(cc) {
+			if g != f && k.releases(g, depth+1) {
+				found = true
+			}
+		}
+	})
+	return found
 }
 
-func c17isReleaseDefer(i ssa.Instruction) bool {
+func (k *c17kit) isReleaseDefer(i ssa.Instruction) bool {
 	d, ok := i.(*ssa.Defer)
 	if !ok {
 		return false
 	}
-	if sc := d.Call.StaticCallee(); sc != nil {
-		return c17releases(sc)
-	}
-	for _, g := range funcsOf(d.Call.Value) {
-		if c17releases(g) {
+	for _, g := range k.callees(&d.Call) {
+		if k.releases(g, 0) {
 			return true
 		}
 	}
@@ -373,10 +573,10 @@ func runC17T2(c *Ctx, k *c17kit) {
 		if !k.isInstall(i) {
 			return
 		}
-		ls := k.origins(i.(*ssa.Store).Val, func(v ssa.Value) bool { return fresh(v) || k.field(v) == k.rwIdx })
+		ls := k.gzLeaves(i.(*ssa.Store).Val, func(v ssa.Value) bool { return fresh(v) || k.isRW(v) })
 		ok := len(ls) > 0
 		for _, l := range ls {
-			if k.field(l.v) == k.rwIdx {
+			if k.isRW(l.v) {
 				continue // the other arm of a merged store: the wrapped writer
 			}
 			if !fresh(l.v) {
@@ -409,6 +609,17 @@ func runC17T2(c *Ctx, k *c17kit) {
 			})
 			return isNil && nn
 		}, 0)
+		if !nonNil {
+			// no test needed where the writer cannot be nil: it is read from a field of a wrapper type that is assigned a
+			// writer from the pool wherever an instance is created (the pass-through case is then another dynamic type)
+			ls := k.origins(recv, func(v ssa.Value) bool { return fresh(v) || (k.isGz(v) && !k.alwaysSet(k.fkey(v))) })
+			nonNil = len(ls) > 0
+			for _, l := range ls {
+				if !fresh(l.v) {
+					nonNil = false
+				}
+			}
+		}
 		c.check("C17.T2", fnKey(f)+"|Close and Put under gzipWriter != nil", i.Pos(), nonNil, "only an acquired writer may be closed and put back: a response that was passed through has none (nil pointer panic in the deferred Close)")
 	})
 	c.atLeast("C17.T2", "gzip.Writer.Close calls", nClose, 1)
@@ -422,12 +633,12 @@ func runC17T2(c *Ctx, k *c17kit) {
 		if len(s.created) == 0 {
 			continue
 		}
-		ok := c17precededBy(s.i, c17isReleaseDefer, 0)
+		ok := c17precededBy(s.i, k.isReleaseDefer, 0)
 		if !ok {
 			ok = true
 			for _, l := range s.created {
 				li, isI := l.v.(ssa.Instruction)
-				if !isI || li.Parent() != s.i.Parent() || pathAvoiding(li, s.i, c17isReleaseDefer) {
+				if !isI || li.Parent() != s.i.Parent() || pathAvoiding(li, s.i, k.isReleaseDefer) {
 					ok = false
 				}
 			}
@@ -439,8 +650,39 @@ func runC17T2(c *Ctx, k *c17kit) {
 
 // ---- W1: Write forwards ------------------------------------------------------------------------------------------------
 
-// forwardResult: v is result idx of a Write through the decided writer with the caller's buffer; returns the call.
-func (k *c17kit) forwardResult(v ssa.Value, idx int, depth int) ssa.Value {
+// c17sink says whether a call hands the body on to the next writer, and returns the buffer argument.
+type c17sink func(cc *ssa.CallCommon) (buf ssa.Value, ok bool)
+
+// sinkDecided: Write through the decided-writer field.
+func (k *c17kit) sinkDecided(cc *ssa.CallCommon) (ssa.Value, bool) {
+	if !cc.IsInvoke() || cc.Method.Name() != "Write" || !k.isWval(cc.Value) || len(cc.Args) != 1 {
+		return nil, false
+	}
+	return cc.Args[0], true
+}
+
+// sinkHeld: Write of a writer that a wrapper type holds: the wrapped ResponseWriter, or a *gzip.Writer kept in a field.
+func (k *c17kit) sinkHeld(cc *ssa.CallCommon) (ssa.Value, bool) {
+	if cc.IsInvoke() {
+		if cc.Method.Name() != "Write" || len(cc.Args) != 1 || !k.wrapsUnderlying(cc.Value) {
+			return nil, false
+		}
+		return cc.Args[0], true
+	}
+	if calleeName(cc) != "(*compress/gzip.Writer).Write" || len(cc.Args) != 2 {
+		return nil, false
+	}
+	ls := k.origins(cc.Args[0], k.isGz)
+	for _, l := range ls {
+		if !k.isGz(l.v) {
+			return nil, false
+		}
+	}
+	return cc.Args[1], len(ls) > 0
+}
+
+// forwardResult: v is result idx of a Write into sink with owner's own buffer; returns the call.
+func (k *c17kit) forwardResult(owner *ssa.Function, sink c17sink, v ssa.Value, idx int, depth int) ssa.Value {
 	e, ok := v.(*ssa.Extract)
 	if !ok || e.Index != idx || depth > 3 {
 		return nil
@@ -449,14 +691,11 @@ func (k *c17kit) forwardResult(v ssa.Value, idx int, depth int) ssa.Value {
 	if !ok {
 		return nil
 	}
-	if call.Call.IsInvoke() {
-		if call.Call.Method.Name() != "Write" || !k.isW(call.Call.Value) || len(call.Call.Args) != 1 {
-			return nil
-		}
-		ls := k.origins(call.Call.Args[0], nil)
+	if buf, isSink := sink(&call.Call); isSink {
+		ls := k.origins(buf, nil)
 		for _, l := range ls {
 			p, isP := l.v.(*ssa.Parameter)
-			if !isP || p.Parent() != k.wr || typeStr(p.Type()) != "[]byte" {
+			if !isP || p.Parent() != owner || typeStr(p.Type()) != "[]byte" {
 				return nil
 			}
 		}
@@ -466,7 +705,7 @@ func (k *c17kit) forwardResult(v ssa.Value, idx int, depth int) ssa.Value {
 		return call
 	}
 	sc := call.Call.StaticCallee()
-	if sc == nil || len(sc.Blocks) == 0 || rootPkg(sc) != k.pkg {
+	if sc == nil || len(sc.Blocks) == 0 || !k.inRegion(sc) {
 		return nil
 	}
 	n, all := 0, true
@@ -480,7 +719,7 @@ func (k *c17kit) forwardResult(v ssa.Value, idx int, depth int) ssa.Value {
 			all = false
 			return
 		}
-		a, b := k.forwardResult(r.Results[0], 0, depth+1), k.forwardResult(r.Results[1], 1, depth+1)
+		a, b := k.forwardResult(owner, sink, r.Results[0], 0, depth+1), k.forwardResult(owner, sink, r.Results[1], 1, depth+1)
 		if a == nil || a != b {
 			all = false
 		}
@@ -491,9 +730,11 @@ func (k *c17kit) forwardResult(v ssa.Value, idx int, depth int) ssa.Value {
 	return call
 }
 
-func runC17W1(c *Ctx, k *c17kit) {
+// forwards: every return of fn hands back the (n, err) of one Write of fn's own buffer into sink; returns the number
+// of returns looked at.
+func (k *c17kit) forwards(c *Ctx, fn *ssa.Function, sink c17sink, what, detail string) int {
 	nW := 0
-	eachInstr(k.wr, func(i ssa.Instruction) {
+	eachInstr(fn, func(i ssa.Instruction) {
 		r, ok := i.(*ssa.Return)
 		if !ok {
 			return
@@ -501,7 +742,7 @@ func runC17W1(c *Ctx, k *c17kit) {
 		nW++
 		okFwd := false
 		if len(r.Results) == 2 {
-			a, b := k.forwardResult(r.Results[0], 0, 0), k.forwardResult(r.Results[1], 1, 0)
+			a, b := k.forwardResult(fn, sink, r.Results[0], 0, 0), k.forwardResult(fn, sink, r.Results[1], 1, 0)
 			okFwd = a != nil && a == b
 			if a != nil && !okFwd && isNilConst(r.Results[1]) {
 				// `if err != nil { return n, err }; return n, nil`: a literal nil where the writer's error is known to be nil
@@ -511,7 +752,47 @@ func runC17W1(c *Ctx, k *c17kit) {
 				})
 			}
 		}
-		c.check("C17.W1", fnKey(k.wr)+"|forwards b unchanged and returns the writer's results", r.Pos(), okFwd, "Write must hand exactly its argument to the decided writer and return that writer's (n, err)")
+		c.check("C17.W1", fnKey(fn)+"|"+what, r.Pos(), okFwd, detail)
 	})
+	return nW
+}
+
+func runC17W1(c *Ctx, k *c17kit) {
+	nW := k.forwards(c, k.wr, k.sinkDecided, "forwards b unchanged and returns the writer's results", "Write must hand exactly its argument to the decided writer and return that writer's (n, err)")
 	c.atLeast("C17.W1", "returns of Write", nW, 1)
+	// the decided writer may be a small type of the package wrapped around the gzip writer / the ResponseWriter: its
+	// Write is part of the way of the body and must forward unchanged as well
+	seen := map[*types.Named]bool{}
+	for _, st := range k.stores[k.W] {
+		for _, l := range k.origins(st.Val, func(v ssa.Value) bool { n, _, _ := k.holder(v.Type()); return n != nil }) {
+			n, _, _ := k.holder(l.v.Type())
+			if n == nil || seen[n] {
+				continue
+			}
+			seen[n] = true
+			var wfn *ssa.Function
+			promoted := false
+			for _, t := range []types.Type{n, types.NewPointer(n)} {
+				if sel := c.Prog.MethodSets.MethodSet(t).Lookup(nil, "Write"); sel != nil {
+					if len(sel.Index()) > 1 {
+						promoted = true // Write of an embedded gzip writer / ResponseWriter: forwards by construction
+						break
+					}
+					if f := c.Prog.MethodValue(sel); f != nil {
+						wfn = unwrap(f)
+						break
+					}
+				}
+			}
+			if promoted {
+				continue
+			}
+			if wfn == nil || len(wfn.Blocks) == 0 || !k.inRegion(wfn) {
+				c.undecided("C17.W1", "anchor|Write of "+n.Obj().Name(), "the decided writer can be a "+n.Obj().Name()+" whose Write method has no body in the package (promoted from an embedded field?)")
+				continue
+			}
+			nR := k.forwards(c, wfn, k.sinkHeld, "wrapper forwards b unchanged and returns the writer's results", "a type the decided writer can be must hand exactly the bytes it is given to the gzip writer / the wrapped ResponseWriter it holds and return that writer's (n, err)")
+			c.atLeast("C17.W1", "returns of "+n.Obj().Name()+".Write", nR, 1)
+		}
+	}
 }
